@@ -4,8 +4,10 @@
 // ouroboros.Connections.  One case = one configuration (client/server,
 // node-to-node / node-to-client / DMQ, full duplex requested locally, the
 // peer's advertised diffusion mode and peer-sharing flag, negotiated version,
-// and the local options that never go on the wire: WithKeepAlive on or off)
-// and one inbound segment (protocol number x direction).  The connection runs
+// and the local options that never go on the wire: WithKeepAlive on or off),
+// optionally a history (one running role of one mini-protocol is stopped
+// through the API - Client.Stop() / Server.Stop() - after set-up and before
+// the probe) and one inbound segment (protocol number x direction).  The connection runs
 // on an in-memory pipe against a raw segment-level peer that performs the
 // handshake by hand (selecting exactly the row's version with the row's flags)
 // and then writes the one segment.  Observed: which accessors are non-nil,
@@ -25,6 +27,7 @@ import (
 	"log/slog"
 	"net"
 	"os"
+	"reflect"
 	"runtime"
 	"sort"
 	"strings"
@@ -95,12 +98,27 @@ type row struct {
 	Lps         bool     `json:"lps"`
 	Pps         bool     `json:"pps"`
 	Lka         *bool    `json:"lka,omitempty"` // local WithKeepAlive; rows recorded before the dimension existed ran with it on
+	Stop        *stopRow `json:"stop,omitempty"` // the history: this role was stopped before the probe (id 0 / absent: none)
+	Live        [][]any  `json:"live,omitempty"`
 	Optional    [][]any  `json:"optional,omitempty"`
 	Roles       []string `json:"roles"`
 	Enabled     []int    `json:"enabled"`
 	Constructed [][]any  `json:"constructed"`
 	Registered  [][]any  `json:"registered"`
 	Segs        []segRow `json:"segs"`
+}
+
+type stopRow struct {
+	Id   int    `json:"id"`
+	Role string `json:"role"` // "init" | "resp"
+}
+
+// stopped is the row's history (nil: a freshly set-up connection is probed).
+func (r *row) stopped() *stopRow {
+	if r.Stop == nil || r.Stop.Id == 0 {
+		return nil
+	}
+	return r.Stop
 }
 
 func b01(b bool) int {
@@ -110,7 +128,16 @@ func b01(b bool) int {
 	return 0
 }
 
+// cfgKey names the configuration and its history; baseKey the configuration alone.
 func (r *row) cfgKey() string {
+	k := r.baseKey()
+	if st := r.stopped(); st != nil {
+		k += fmt.Sprintf(":stop=%d/%s", st.Id, st.Role) // keys of rows without a history are the keys from before the dimension existed
+	}
+	return k
+}
+
+func (r *row) baseKey() string {
 	side := "client"
 	if r.Server {
 		side = "server"
@@ -153,6 +180,8 @@ type observed struct {
 	Quiet      bool            `json:"decided_by_quiet_period"`
 	WriteErr   string          `json:"probe_write_error,omitempty"`
 	Waited     string          `json:"waited"`
+	Stopped    string          `json:"history_stop,omitempty"`
+	LiveAfter  []string        `json:"registered_after_the_stop,omitempty"`
 	PeerSaw    []string        `json:"segments_sent_by_connection,omitempty"`
 }
 
@@ -523,6 +552,133 @@ func (p *rawPeer) handshake(r *row, version uint16, data []byte) string {
 // ---------------------------------------------------------------------------
 // one case
 
+// roleHandle is the Client / Server object of protocol id on the connection
+// (nil if the connection has none).
+func roleHandle(c *ouroboros.Connection, id int, role string) any {
+	pick := func(client, server any) any {
+		v := client
+		if role == "resp" {
+			v = server
+		}
+		if rv := reflect.ValueOf(v); !rv.IsValid() || (rv.Kind() == reflect.Pointer && rv.IsNil()) {
+			return nil
+		}
+		return v
+	}
+	switch id {
+	case 2, 5:
+		if p := c.ChainSync(); p != nil {
+			return pick(p.Client, p.Server)
+		}
+	case 3:
+		if p := c.BlockFetch(); p != nil {
+			return pick(p.Client, p.Server)
+		}
+	case 4:
+		if p := c.TxSubmission(); p != nil {
+			return pick(p.Client, p.Server)
+		}
+	case 6:
+		if p := c.LocalTxSubmission(); p != nil {
+			return pick(p.Client, p.Server)
+		}
+	case 7:
+		if p := c.LocalStateQuery(); p != nil {
+			return pick(p.Client, p.Server)
+		}
+	case 8:
+		if p := c.KeepAlive(); p != nil {
+			return pick(p.Client, p.Server)
+		}
+	case 9:
+		if p := c.LocalTxMonitor(); p != nil {
+			return pick(p.Client, p.Server)
+		}
+	case 10:
+		if p := c.PeerSharing(); p != nil {
+			return pick(p.Client, p.Server)
+		}
+	case 14:
+		if p := c.LocalMessageSubmission(); p != nil {
+			return pick(p.Client, p.Server)
+		}
+	case 15:
+		if p := c.LocalMessageNotification(); p != nil {
+			return pick(p.Client, p.Server)
+		}
+	}
+	return nil
+}
+
+// stopRole stops one role of one mini-protocol the way an application does:
+// Client.Stop() / Server.Stop() (the protocol's own Stop where it has one, the
+// embedded Protocol.Stop otherwise).  It returns "" once the muxer has
+// unregistered exactly that pair (Unreg event), a description of why the
+// history could not be established otherwise.
+func stopRole(c *ouroboros.Connection, ml *muxLog, st *stopRow) string {
+	h := roleHandle(c, st.Id, st.Role)
+	if h == nil {
+		return fmt.Sprintf("the connection has no %s object for protocol %d", map[string]string{"init": "Client", "resp": "Server"}[st.Role], st.Id)
+	}
+	done := make(chan string, 1)
+	go func() {
+		defer func() {
+			if x := recover(); x != nil {
+				done <- fmt.Sprintf("Stop panicked: %v", x)
+			}
+		}()
+		switch v := h.(type) {
+		case interface{ Stop() error }:
+			_ = v.Stop() // (a Done message that could not be sent is not this property's subject)
+		case interface{ Stop() }:
+			v.Stop()
+		default:
+			done <- fmt.Sprintf("%T has no Stop method", h)
+			return
+		}
+		done <- ""
+	}()
+	want := muxer.ProtocolRoleInitiator
+	if st.Role == "resp" {
+		want = muxer.ProtocolRoleResponder
+	}
+	unreg := func() bool {
+		ml.mu.Lock()
+		defer ml.mu.Unlock()
+		for _, e := range ml.evs {
+			if e.Ev == "Unreg" && int(e.Id) == st.Id && e.Role == want {
+				return true
+			}
+		}
+		return false
+	}
+	deadline := time.After(setupDeadline)
+	returned := false
+	for {
+		if unreg() && returned {
+			return ""
+		}
+		select {
+		case why := <-done:
+			if why != "" {
+				return why
+			}
+			returned = true
+			if !unreg() {
+				// Unregistering happens inside Stop: nothing more will come
+				return "Stop returned without unregistering the role from the muxer"
+			}
+		case <-ml.notify:
+		case <-time.After(50 * time.Millisecond):
+		case <-deadline:
+			if unreg() {
+				return "" // the role is gone; that Stop is still waiting for something is another property's subject
+			}
+			return "Stop did not unregister the role within " + setupDeadline.String()
+		}
+	}
+}
+
 func accessors(c *ouroboros.Connection) map[int]bool {
 	return map[int]bool{
 		2:  c.ChainSync() != nil, // node-to-node chain-sync and node-to-client chain-sync share the accessor
@@ -680,6 +836,40 @@ func run(j *job, final bool) (undecided string, class string) {
 		sort.Strings(ob.Registered)
 		compareSetup(r, rp, acc, reg)
 
+		// --- the history: one running role is stopped before the peer's segment arrives
+		if st := r.stopped(); st != nil {
+			if !reg[fmt.Sprintf("%d/%s", st.Id, st.Role)] {
+				// the set-up comparison of the configuration reports this; there is nothing to stop
+				stat(fmt.Sprintf("history:not_run_role_not_registered:%d/%s", st.Id, st.Role))
+				return
+			}
+			if why := stopRole(c, ml, st); why != "" {
+				undecided = "history could not be established: " + why
+				return
+			}
+			ob.Stopped = fmt.Sprintf("%d/%s", st.Id, st.Role)
+			live := map[string]bool{}
+			ml.mu.Lock()
+			nSetup = len(ml.evs)
+			for _, e := range ml.evs {
+				if e.Id == 0 {
+					continue
+				}
+				switch e.Ev {
+				case "Reg":
+					live[fmt.Sprintf("%d/%s", e.Id, roleName(e.Role))] = true
+				case "Unreg":
+					delete(live, fmt.Sprintf("%d/%s", e.Id, roleName(e.Role)))
+				}
+			}
+			ml.mu.Unlock()
+			for k := range live {
+				ob.LiveAfter = append(ob.LiveAfter, k)
+			}
+			sort.Strings(ob.LiveAfter)
+			stat("history:stopped:" + ob.Stopped)
+		}
+
 		// --- the probe
 		role := muxer.ProtocolRoleResponder
 		prole := protocol.ProtocolRoleServer
@@ -827,7 +1017,7 @@ func yn(b bool) string {
 
 func compareSetup(r *row, rp *replay, acc map[int]bool, reg map[string]bool) {
 	once := func(item string) bool {
-		_, loaded := setupReported.LoadOrStore(r.cfgKey()+"|"+item, struct{}{})
+		_, loaded := setupReported.LoadOrStore(r.baseKey()+"|"+item, struct{}{})
 		return !loaded
 	}
 	for _, it := range r.Constructed {
@@ -840,8 +1030,8 @@ func compareSetup(r *row, rp *replay, acc map[int]bool, reg map[string]bool) {
 		if (id == 2 && r.Kind != "ntn") || (id == 5 && r.Kind != "ntc") {
 			continue // one ChainSync() accessor serves both chain-sync numbers
 		}
-		if !tri(want, got) && once(fmt.Sprintf("acc%d", id)) && limit.take(r.cfgKey()+":setup") && coarse.take(sideKey(r)+":setup:accessor") {
-			rep.Disagree(fmt.Sprintf("setup:%s:accessor=%d", r.cfgKey(), id),
+		if !tri(want, got) && once(fmt.Sprintf("acc%d", id)) && limit.take(r.baseKey()+":setup") && coarse.take(sideKey(r)+":setup:accessor") {
+			rep.Disagree(fmt.Sprintf("setup:%s:accessor=%d", r.baseKey(), id),
 				fmt.Sprintf("protocol %d: the specification says constructed=%s (enabled by the negotiation: %v), the connection's accessor is non-nil=%v",
 					id, want, r.Enabled, got), rp)
 		}
@@ -854,8 +1044,8 @@ func compareSetup(r *row, rp *replay, acc map[int]bool, reg map[string]bool) {
 		role := it[1].(string)
 		want := it[2].(string)
 		got := reg[fmt.Sprintf("%d/%s", id, role)]
-		if !tri(want, got) && once(fmt.Sprintf("reg%d%s", id, role)) && limit.take(r.cfgKey()+":setup") && coarse.take(sideKey(r)+":setup:registered/"+role+"="+yn(got)) {
-			rep.Disagree(fmt.Sprintf("setup:%s:registered=%d/%s", r.cfgKey(), id, role),
+		if !tri(want, got) && once(fmt.Sprintf("reg%d%s", id, role)) && limit.take(r.baseKey()+":setup") && coarse.take(sideKey(r)+":setup:registered/"+role+"="+yn(got)) {
+			rep.Disagree(fmt.Sprintf("setup:%s:registered=%d/%s", r.baseKey(), id, role),
 				fmt.Sprintf("protocol %d role %s: the specification says started=%s (negotiated roles %v, enabled protocols %v), registered with the muxer=%v",
 					id, role, want, r.Roles, r.Enabled, got), rp)
 		}
@@ -870,10 +1060,18 @@ func compareSetup(r *row, rp *replay, acc map[int]bool, reg map[string]bool) {
 	}
 	for k := range reg {
 		if !known[k] && once("extra"+k) {
-			rep.Disagree(fmt.Sprintf("setup:%s:registered=%s", r.cfgKey(), k),
+			rep.Disagree(fmt.Sprintf("setup:%s:registered=%s", r.baseKey(), k),
 				"a protocol number outside the specification's table was registered with the muxer: "+k, rp)
 		}
 	}
+}
+
+// RoleForSeg is the local role a segment is addressed to.
+func RoleForSeg(sg *segRow) string {
+	if sg.Resp {
+		return "init"
+	}
+	return "resp"
 }
 
 func sideKey(r *row) string {
@@ -909,19 +1107,26 @@ func compareProbe(r *row, sg *segRow, key string, rp *replay, ob *observed, fina
 		bad = append(bad, "an error was reported but ErrorChan was not closed")
 	}
 	class := sideKey(r) + map[bool]string{true: ":resp:", false: ":req:"}[sg.Resp] + strings.Join(sig, "+")
+	if r.stopped() != nil {
+		class += ":after-stop" // histories have their own budget of reported disagreements
+	}
 	if len(bad) > 0 && ob.Quiet && !final {
 		return "not settled: " + strings.Join(bad, "; "), class
 	}
 	rep.Case(key, true)
 	rep.Sample(map[string]any{"case": key, "expected": map[string]any{"deliver": sg.Deliver, "app": sg.App, "err": sg.Err, "why": sg.Why},
-		"observed": map[string]any{"delivered": ob.Delivered, "handled": ob.Handled, "app": ob.App, "errors": ob.Errors, "closed": ob.Closed}})
+		"observed": map[string]any{"delivered": ob.Delivered, "handled": ob.Handled, "app": ob.App, "errors": ob.Errors, "closed": ob.Closed, "stopped_before": ob.Stopped}})
 	if len(bad) > 0 {
 		// both counters always count; a disagreement is reported while neither is exhausted
 		a := limit.take(r.cfgKey() + map[bool]string{true: ":resp", false: ":req"}[sg.Resp])
 		b := coarse.take(class)
 		if a && b {
-			rep.Disagree(key, fmt.Sprintf("negotiated roles %v, enabled %v, specification: %v; %s; muxer errors %v, ErrorChan %v; %s",
-				r.Roles, r.Enabled, sg.Why, strings.Join(bad, "; "), ob.MuxErr, ob.Errors, ob.Waited), rp)
+			hist := ""
+			if st := r.stopped(); st != nil {
+				hist = fmt.Sprintf("after %d/%s was stopped (still obliged to run: %v, registered by the muxer's events: %v): ", st.Id, st.Role, r.Live, ob.LiveAfter)
+			}
+			rep.Disagree(key, fmt.Sprintf("%snegotiated roles %v, enabled %v, specification: %v; %s; muxer errors %v, ErrorChan %v; %s",
+				hist, r.Roles, r.Enabled, sg.Why, strings.Join(bad, "; "), ob.MuxErr, ob.Errors, ob.Waited), rp)
 		}
 		return "", class
 	}
@@ -947,6 +1152,16 @@ func compareProbe(r *row, sg *segRow, key string, rp *replay, ob *observed, fina
 	o := "routed"
 	if len(sg.Why) > 0 {
 		o = strings.Join(sg.Why, "+")
+	}
+	if r.stopped() != nil {
+		o = "after-stop:" + o
+		if sg.Id == r.Stop.Id {
+			if RoleForSeg(sg) == r.Stop.Role {
+				stat(fmt.Sprintf("open:segment_for_the_stopped_role:delivered=%s:error=%s", yn(ob.Delivered), yn(gotErr)))
+			} else {
+				stat("history:probed_the_surviving_role_of_the_stopped_protocol")
+			}
+		}
 	}
 	stat("spec_outcome:" + o)
 	return "", class
@@ -1028,7 +1243,11 @@ func main() {
 		}
 		for i := range rows {
 			for s := range rows[i].Segs {
-				for v := 0; v < variants; v++ {
+				nv := variants
+				if rows[i].stopped() != nil && rows[i].Kind != "ntn" {
+					nv = 1 // histories on the unidirectional kinds: one variant (the other role never existed)
+				}
+				for v := 0; v < nv; v++ {
 					jobs = append(jobs, &job{Row: &rows[i], Seg: s, Variant: v})
 				}
 			}
@@ -1041,6 +1260,13 @@ func main() {
 			}
 		}
 		rep.Extra["configurations_with_keep_alive_option_off"] = nOff
+		nStop := 0
+		for i := range rows {
+			if rows[i].stopped() != nil {
+				nStop++
+			}
+		}
+		rep.Extra["configurations_with_a_stopped_role_history"] = nStop
 		rep.Extra["variants_per_case"] = variants
 	}
 	workers := 2 * runtime.GOMAXPROCS(0)
